@@ -31,7 +31,45 @@ var (
 	verifFileBytes []byte
 )
 
-const verifDir = "/p/d"
+// verifDir is the directory of the root file: a fixed virtual path under the
+// symbolic engine, a fresh temporary directory in a native replay.
+var verifDir = "/p/d"
+
+// verifFSInit prepares the native file system for a replay (no-op symbolically).
+func verifFSInit() {
+	if verifrt.Symbolic() {
+		return
+	}
+	d, err := os.MkdirTemp("", "verif-fs-")
+	if err != nil {
+		panic(err)
+	}
+	verifDir = d
+}
+
+// verifFSTarget creates the include target natively the way the stat stub answered
+// in the symbolic run: 0 absent, 1 directory, 2 regular file (3: other error, cannot be staged: absent).
+func verifFSTarget(rel string, content []byte) {
+	if verifrt.Symbolic() {
+		return
+	}
+	switch verifrt.NativeInt("stat#0", 2) {
+	case 1:
+		_ = os.MkdirAll(verifDir+"/"+rel, 0o755)
+	case 2:
+		_ = os.WriteFile(verifDir+"/"+rel, content, 0o644)
+	}
+}
+
+// verifFSWrite writes concrete virtual files natively.
+func verifFSWrite(files map[string][]byte) {
+	if verifrt.Symbolic() {
+		return
+	}
+	for name, b := range files {
+		_ = os.WriteFile(name, b, 0o644)
+	}
+}
 
 // verifStubStat: os.Stat contract. A path that is the including file's
 // directory or one of its ancestors exists and is a directory (the including
@@ -117,6 +155,10 @@ func VerifH_IncludePath() {
 		verifrt.Assume(!(s[0] == '/' && (s[1] == '/' || s[1] == '*'))) // would be an annotation
 	}
 	verifStatCalls, verifReadCalls = nil, nil
+	verifFSInit()
+	if !verifrt.Symbolic() && !refNameForbidden(s) {
+		verifFSTarget(s, []byte("URL /x"))
+	}
 	file := fs.NewFile(verifDir+"/root.jst", "INCLUDE "+s)
 	core := NewJApiCore(file)
 	kw, je := core.scanner.Next()
@@ -155,6 +197,10 @@ func VerifH_IncludeTargetKinds() {
 	}
 	verifStatCalls, verifReadCalls = nil, nil
 	verifFileBytes = []byte("URL /x")
+	verifFSInit()
+	if !verifrt.Symbolic() && !refNameForbidden(s) {
+		verifFSTarget(s, verifFileBytes)
+	}
 	file := fs.NewFile(verifDir+"/root.jst", "INCLUDE "+s)
 	core := NewJApiCore(file)
 	kw, _ := core.scanner.Next()
@@ -176,4 +222,31 @@ func VerifH_IncludeTargetKinds() {
 	}
 	verifrt.Reach("C08.kinds.ok", je == nil)
 	verifrt.Reach("C08.kinds.err", je != nil)
+}
+
+
+// VerifH_IncludeQuoted (C01, C08): a quoted INCLUDE file name - including the
+// empty one - never faults; it is either rejected with a diagnostic at the
+// keyword or resolves below the directory of the including file.
+func VerifH_IncludeQuoted() {
+	n := verifrt.Choice("n", verifrt.Bound("N")+1)
+	s := verifrt.String("s", n)
+	for i := 0; i < n; i++ {
+		c := s[i]
+		verifrt.Assume(c != '\n' && c != '\r' && c != 0 && c != '"' && c != '\\')
+	}
+	verifStatCalls, verifReadCalls = nil, nil
+	verifFSInit()
+	file := fs.NewFile(verifDir+"/root.jst", "INCLUDE \""+s+"\"")
+	core := NewJApiCore(file)
+	kw, je := core.scanner.Next()
+	verifrt.Assert("C08.quoted.keyword", je == nil && kw != nil && isIncludeKeyword(kw))
+	path, je := core.getIncludedFilePath(kw)
+	if je != nil {
+		verifrt.Assert("C08.quoted.error-at-keyword", je.Index() == 0)
+	} else {
+		verifrt.Assert("C08.quoted.below-dir", len(path) > len(verifDir)+1 && path[:len(verifDir)+1] == verifDir+"/")
+	}
+	verifrt.Assert("C08.quoted.no-read-in-validation", len(verifReadCalls) == 0)
+	verifrt.Reach("C08.quoted.reject", je != nil)
 }
